@@ -412,10 +412,26 @@ def r17b(ctx: Context) -> None:
 
 
 def _getter_calls(prog: Program, funcs: List[FuncInfo]) -> List[Tuple[FuncInfo, ast.Call]]:
+    """the typed property reads of the given functions.  A read inside a helper whose item name (default, validator)
+    is a parameter of the helper is returned once per call of the helper, with the caller's arguments filled in."""
+    import copy
+
     out = []
     for func in funcs:
         for node in walk_local(func.node):
             if isinstance(node, ast.Call) and isinstance(node.func, ast.Attribute) and re.match(r"get_(boolean|integer|string)_property$", node.func.attr):
+                name = node.args[0] if node.args else None
+                if isinstance(name, ast.Name) and name.id in func.params:
+                    sites = [s for s in prog.callers.get(func.qualname, []) if s.caller in funcs]
+                    for site in sites:
+                        bound = Program.bind_args(func, site.node, skip_self=func.kind in ("instance", "class"))
+                        fill = lambda expr: bound.get(expr.id, expr) if isinstance(expr, ast.Name) and expr.id in func.params else expr  # noqa: E731
+                        special = copy.copy(node)
+                        special.args = [fill(a) for a in node.args]
+                        special.keywords = [ast.keyword(arg=k.arg, value=fill(k.value)) for k in node.keywords]
+                        out.append((func, special))
+                    if sites:
+                        continue
                 out.append((func, node))
     return out
 
